@@ -155,8 +155,21 @@ def match_regex(contract: Teal, regex: Regex) -> Tuple[List[List[Instruction]], 
 
     matches: List[List[Instruction]] = []
     covered: Set[Instruction] = set()
+    visited: Set[Instruction] = set()
 
-    _find_instructions(label, regex.instructions, set(), matches, covered)
+    _find_instructions(label, regex.instructions, visited, matches, covered)
+
+    # The search above marks an instruction only when it is first visited: instructions which reach a
+    # match through an already visited instruction (second arm of a branch joining before the match,
+    # body of a loop) are missed. Every visited predecessor of a match or of a covered instruction
+    # is on a path from the label to the match.
+    worklist: List[Instruction] = [match[0] for match in matches] + list(covered)
+    while worklist:
+        ins = worklist.pop()
+        for prev_ins in ins.prev:
+            if prev_ins in visited and prev_ins not in covered:
+                covered.add(prev_ins)
+                worklist.append(prev_ins)
 
     return matches, covered
 
